@@ -80,6 +80,11 @@ def run(item):
                 ret = dict(x=None, g=g, f=v)
             elif c["op"] == "value":
                 ret = dict(x=None, g=None, f=f.value(query(c["q"])))
+            elif c["op"] == "call":
+                ret = dict(x=None, g=None, f=f(query(c["q"])))
+            elif c["op"] == "gradient":
+                q_ = query(c["q"])
+                ret = dict(x=None, g=(f.gradient(q_) if c["f"] % 2 else f.subgradient(q_)), f=None)
             elif c["op"] == "stat":
                 x, g, v = f.stationary_point(return_gradient_and_function_value=True)
                 ret = dict(x=x, g=g, f=v)
